@@ -8,8 +8,9 @@ from props import PROPS, META
 from manifest_meta import NOT_APPLICABLE, HOOK_COMMITS
 all_ids = [json.loads(l)["id"] for l in open(os.path.join(V, "properties.jsonl"))]
 checks = []
+claimed = [l.strip() for l in open(os.path.join(V, "driver", "claimed.txt")) if l.strip() and not l.startswith("#")]
 for pid in all_ids:
-    if pid not in PROPS or pid not in META:
+    if pid not in PROPS or pid not in META or pid not in claimed:
         continue
     m = META[pid]
     checks.append({
